@@ -340,9 +340,23 @@ pub fn generate(rng: &mut Rng, cfg: &GenCfg) -> Program {
             }
         }
         // occasionally drop a guard of another thread (guard dropped on a foreign thread)
-        if nthreads > 1 && rng.chance(1, 3) {
-            let other = (t + 1) % nthreads;
-            ops.push(Op::DropG { g: other * GPT + rng.range(0, GPT) });
+        if nthreads > 1 && rng.chance(1, 2) {
+            // use guards created by another thread (possibly after that thread has exited):
+            // look through them, promote them, drop them
+            let other = (t + 1 + rng.range(0, nthreads - 1)) % nthreads;
+            for _ in 0..rng.range(1, 4) {
+                let g = other * GPT + rng.range(0, GPT);
+                match rng.range(0, 4) {
+                    0 => ops.push(Op::DropG { g }),
+                    1 => {
+                        if let Some(i) = (0..HPT).find(|&i| !hfull[i]) {
+                            ops.push(Op::GInto { g, h: hbase + i });
+                            hfull[i] = true;
+                        }
+                    }
+                    _ => ops.push(Op::GDeref { g }),
+                }
+            }
         }
         if cfg.drop_containers && t == 0 && rng.chance(1, 2) {
             let c = rng.range(0, cfg.containers);
